@@ -1,9 +1,16 @@
 #!/bin/bash
-# Builds the harness once (warms the Go build cache) and runs the corpus self-check. Offline.
+# Builds the harness once (warms the Go build cache, including the instrumenter and the -race
+# variant used by C16) and runs the corpus self-check. Offline.
 set -eu
 export GOFLAGS=-mod=mod GOPROXY=off GOSUMDB=off GOTOOLCHAIN=local
 cd "$(dirname "$0")"
 cp /repo/go.sum h/go.sum
 ( cd h && go build -o /dev/null ./cmd/vcheck )
+W="$(mktemp -d)"
+trap 'rm -rf "$W"' EXIT
+( cd instr && go build -o "$W/instr" . )
+"$W/instr" -repo /repo -out "$W/out" -vsched "$(pwd)/instr/vsched" >/dev/null
+( cd h && go build -tags verifsched -overlay "$W/out/overlay.json" -o /dev/null ./cmd/vcheck )
+( cd h && go build -race -tags verifsched -overlay "$W/out/overlay.json" -o /dev/null ./cmd/vcheck )
 mkdir -p evidence replays
 ./run.sh selfcheck
